@@ -20,11 +20,22 @@ def _coef(rng):
     return rng.randint(5, 12)
 
 
+KMODES = ['frac', 'frac', 'srat', 'sym', 'sym', 'none', 'int', 'int', 'float', 'sint', 'mixed', 'mixed']
+NUMERIC_LEAF_MODES = ['int', 'frac', 'srat', 'sint', 'float']
+SMALL = ('int', 'float', 'sint', 'mixed')       # small magnitudes: results stay inside the double range
+
+
 def _rat(rng, kmode):
     if kmode == 'sym':
         return rng.choice(PRIMES)
     if kmode == 'none':
         return None
+    if kmode == 'float':        # exactly representable: powers of two (and their products stay exact)
+        return rat_json(Fraction(2) ** rng.randint(-6, 6))
+    if kmode in ('int', 'sint'):
+        if kmode == 'int' and rng.random() < 0.03:
+            return 0
+        return rng.choice([1, 2, 2, 3, 4, 5, 7, 10, 12])
     r = rng.random()
     if r < 0.04 and kmode == 'frac':
         return 0
@@ -58,8 +69,15 @@ def gen_eq(rng, pool, kmode, inact=False, plain=True, p_both=0.2, p_zero=0.0):
         if inact:
             for k in rng.sample(pool, rng.randint(0, 2)):
                 (ireac if rng.random() < 0.5 else iprod).append([k, _coef(rng)])
-        e = {'reac': reac, 'prod': prod, 'ireac': ireac, 'iprod': iprod, 'K': _rat(rng, kmode),
+        e = {'reac': reac, 'prod': prod, 'ireac': ireac, 'iprod': iprod,
              'dict': True if plain else rng.random() < 0.6}
+        if kmode == 'mixed':     # every operand draws its own kind of constant
+            e['km'] = rng.choice(NUMERIC_LEAF_MODES)
+            e['K'] = _rat(rng, e['km']) or 1      # no 0: sympy turns 0 ** negative into zoo instead of raising
+            if e['km'] in ('frac', 'srat'):
+                e['K'] = rat_json(Fraction(rng.randint(1, 9), rng.randint(1, 9)))
+        else:
+            e['K'] = _rat(rng, kmode)
         if _has_effect(e) or rng.random() < 0.03:
             return e
     return e
@@ -83,17 +101,103 @@ def _net(e, active_only=False):
     return d
 
 
-def gen_tree(rng, depth, leaf):
+def gen_tree(rng, depth, leaf, small=False):
     r = rng.random()
     if depth <= 0 or r < 0.18:
         return {'t': 'leaf', 'eq': leaf()}
     if r < 0.42:
-        n = rng.choice([-4, -3, -2, -2, -1, -1, 1, 2, 2, 3, 4, 5]) if rng.random() > 0.03 else 0
+        n = rng.choice([-3, -2, -2, -1, -1, 1, 2, 2, 3] if small else [-4, -3, -2, -2, -1, -1, 1, 2, 2, 3, 4, 5]) if rng.random() > 0.03 else 0
         return {'t': 'scale', 'n': n, 'right': rng.random() < 0.3, 'sint': rng.random() < 0.2,
-                'x': gen_tree(rng, depth - 1, leaf)}
+                'x': gen_tree(rng, depth - 1, leaf, small)}
     if r < 0.5:
-        return {'t': 'neg', 'x': gen_tree(rng, depth - 1, leaf)}
-    return {'t': 'add' if r < 0.77 else 'sub', 'a': gen_tree(rng, depth - 1, leaf), 'b': gen_tree(rng, depth - 1, leaf)}
+        return {'t': 'neg', 'x': gen_tree(rng, depth - 1, leaf, small)}
+    return {'t': 'add' if r < 0.77 else 'sub', 'a': gen_tree(rng, depth - 1, leaf, small), 'b': gen_tree(rng, depth - 1, leaf, small)}
+
+
+def gen_history(rng, m, nsteps, small=False):
+    """statements over a pool of m operand OBJECTS; every statement may use any operand and any earlier result again"""
+    steps = []
+    for k in range(nsteps):
+        lim = m + k
+
+        def ref():      # any earlier object; operands of the pool stay likely however long the history gets
+            return rng.randrange(lim) if rng.random() < 0.6 else rng.randrange(m)
+        r = rng.random()
+        if r < 0.3:
+            n = rng.choice([-2, -2, -1, -1, 1, 2] if small else [-4, -3, -2, -2, -1, -1, 1, 2, 3, 5]) if rng.random() > 0.03 else 0
+            steps.append({'t': 'scale', 'n': n, 'i': ref(), 'right': rng.random() < 0.3, 'sint': rng.random() < 0.2})
+        elif r < 0.38:
+            steps.append({'t': 'neg', 'i': ref()})
+        else:
+            steps.append({'t': 'add' if r < 0.7 else 'sub', 'i': ref(), 'j': ref()})
+    return steps
+
+
+def history_trees(pool_eqs, steps):
+    """the expression tree every statement denotes (variables replaced by their definitions)"""
+    trees = [{'t': 'leaf', 'eq': e} for e in pool_eqs]
+    for st in steps:
+        if st['t'] == 'scale':
+            trees.append({'t': 'scale', 'n': st['n'], 'x': trees[st['i']]})
+        elif st['t'] == 'neg':
+            trees.append({'t': 'neg', 'x': trees[st['i']]})
+        else:
+            trees.append({'t': st['t'], 'a': trees[st['i']], 'b': trees[st['j']]})
+    return trees
+
+
+def run_history(pool_eqs, steps, kmode):
+    """the real code on SHARED objects -> (outcome per statement: Equilibrium | exception instance,
+    messages about earlier objects whose visible state changed)"""
+    import sympy
+    objs = [build_eq(e, kmode) for e in pool_eqs]
+    snap = [show_equil(o) for o in objs]
+    changed = []
+    for k, st in enumerate(steps):
+        try:
+            ops = [objs[st['i']]] + ([objs[st['j']]] if 'j' in st else [])
+            for o in ops:           # a variable whose defining statement raised: using it re-raises
+                if isinstance(o, Exception):
+                    raise o
+            if st['t'] == 'scale':
+                n = sympy.Integer(st['n']) if st.get('sint') else int(st['n'])
+                r = ops[0] * n if st.get('right') else n * ops[0]
+            elif st['t'] == 'neg':
+                r = -ops[0]
+            elif st['t'] == 'add':
+                r = ops[0] + ops[1]
+            else:
+                r = ops[0] - ops[1]
+        except (ValueError, ZeroDivisionError, TypeError) as ex:
+            r = ex
+        objs.append(r)
+        snap.append(None if isinstance(r, Exception) else show_equil(r))
+        for idx in range(len(objs) - 1):
+            if snap[idx] is not None and show_equil(objs[idx]) != snap[idx]:
+                changed.append('statement %d changed object %d from %s to %s' % (k, idx, snap[idx], show_equil(objs[idx])))
+                snap[idx] = show_equil(objs[idx])
+    return objs[len(pool_eqs):], changed
+
+
+def plain_multipliers(x):
+    """sympy.Integer multipliers off (in place): a Python int 0 ** sympy.Integer(-1) is zoo, not ZeroDivisionError"""
+    if isinstance(x, dict):
+        if 'sint' in x:
+            x['sint'] = False
+        for v in x.values():
+            plain_multipliers(v)
+    elif isinstance(x, list):
+        for v in x:
+            plain_multipliers(v)
+    return x
+
+
+def has_zero_K(x):
+    if isinstance(x, dict):
+        return ('K' in x and x['K'] == 0 and 'reac' in x) or any(has_zero_K(v) for v in x.values())
+    if isinstance(x, list):
+        return any(has_zero_K(v) for v in x)
+    return False
 
 
 def tree_depth(t):
@@ -132,6 +236,16 @@ def _K(v, kmode):
         return sympy.Symbol('K%d' % q)
     if kmode == 'srat':
         return sympy.Rational(q.numerator, q.denominator)
+    if kmode == 'sint':
+        assert q.denominator == 1
+        return sympy.Integer(q.numerator)
+    if kmode == 'int':
+        assert q.denominator == 1
+        return int(q.numerator)
+    if kmode == 'float':
+        f = float(q)
+        assert Fraction(f) == q
+        return f
     return q
 
 
@@ -139,7 +253,7 @@ def build_eq(e, kmode='frac', **kw):
     from chempy import Equilibrium
     cont = dict if e['dict'] else OrderedDict
     mk = lambda l: cont((k, int(v)) for k, v in l)
-    return Equilibrium(mk(e['reac']), mk(e['prod']), _K(e['K'], kmode),
+    return Equilibrium(mk(e['reac']), mk(e['prod']), _K(e['K'], e.get('km', kmode)),
                        inact_reac=mk(e['ireac']), inact_prod=mk(e['iprod']), **kw)
 
 
@@ -292,9 +406,38 @@ def check_result(r, vec, K, netted, positive, kmode, what):
         else:
             want = K
         got = canon_K(r.param)
-        if got != want:
+        if isinstance(got, float):      # Python int ** negative int and float constants: the real arithmetic is in doubles
+            if not close(got, want, 1e-9):
+                return '%s: constant is %r, product of the operands\' constants raised to the multipliers is %s = %r' % (what, got, want, float(want))
+        elif got != want:
             return '%s: constant is %s, product of the operands\' constants raised to the multipliers is %s' % (what, got, want)
     return None
+
+
+def show_tree(t):
+    k = t['t']
+    if k == 'leaf':
+        e = t['eq']
+        side = lambda l: ' + '.join('%s%s' % ('' if v == 1 else '%d ' % v, x) for x, v in l) or '0'
+        return '[%s = %s; %s]' % (side(e['reac']), side(e['prod']), e['K'])
+    if k == 'scale':
+        return '%d*%s' % (t['n'], show_tree(t['x']))
+    if k == 'neg':
+        return '-%s' % show_tree(t['x'])
+    return '(%s %s %s)' % (show_tree(t['a']), '+' if k == 'add' else '-', show_tree(t['b']))
+
+
+def same_equil(io, mo, tol):
+    """one canonical equilibrium/exception line; a float constant of the real code is compared with the exact model value"""
+    if io == mo:
+        return True
+    xs, ys = io.split('|'), mo.split('|')
+    if len(xs) != len(ys) or xs[:-1] != ys[:-1] or not xs[-1].startswith('float:'):
+        return False
+    try:
+        return close(float(xs[-1][6:]), Fraction(ys[-1]), tol)
+    except (ValueError, ZeroDivisionError):
+        return False
 
 
 # ------------------------------------------------------------------ the property
@@ -307,13 +450,27 @@ class C11(Property):
     driver = 'ChemModel/Driver/C11.lean'
     n_quick, n_thorough = 3000, 60000
     float_tol = 1e-12
-    rule = ('random expression trees (scale by -4..5 incl. 0, negate, add, subtract; int and sympy.Integer multipliers; n*e and e*n) over random '
+    clauses_without_theorem = (
+        'operand objects are not changed by taking part in arithmetic (histories that use the same Equilibrium objects in several '
+        'statements): the Lean model is pure by construction and history_spec only says that a history equals its expression trees IN THE MODEL; '
+        'for the real objects this is decided by the `history` correspondence op (shared objects, every intermediate result re-usable) and the '
+        "oracle's object-unchanged check",
+        'symbolic constants: theorems hold in every field with decidable equality; sympy expressions are compared by evaluation at primes '
+        '(unique factorisation) and a second point, not by a theorem about sympy',
+        'constants given as Python int / float / sympy.Integer: the model is exact; Python int ** negative int and float arithmetic give doubles, '
+        'compared to the exact value with 1e-9 relative tolerance (small magnitudes only)',
+        'sympy.primefactors returns the primes dividing |n|: correspondence on 0..210 and on the generated coefficients only',
+        'eliminate for more than two equilibria and cancel: correspondence only (the property text asks for two)',
+        'multipliers that are not Python int / sympy.Integer (float.is_integer is truthy): outside model and property (finding 2 in notes/C11.md)',
+    )
+    rule = ('HISTORIES: pools of 2-4 equilibrium objects and 2-10 statements (scale/negate/add/subtract) in which every operand and every earlier '
+            'result may be used again, checked per statement and for unchanged earlier objects; random expression trees (scale by -4..5 incl. 0, negate, add, subtract; int and sympy.Integer multipliers; n*e and e*n) over random '
             'equilibria on a pool of 3-6 species (shared species on opposite sides, species on both sides of one operand, coefficient 1, '
             'zero coefficients, inactive parts, dict and unsorted OrderedDict containers) with K as fractions.Fraction (incl. 0 and negative), '
-            'sympy.Rational, sympy symbols (compared at prime values, unique factorisation) or None; eliminate on every coefficient pair of '
+            'Python int, exactly representable float, sympy.Integer, sympy.Rational, a different kind per operand (mixed), sympy symbols (compared at prime values, unique factorisation) or None; eliminate on every coefficient pair of '
             '(-12..12)^2 without zeros plus zeros, triples, large coefficients; primefactors 0..210; intdiv on (-20..20)^2; cancel; as_reactions with '
             'kf/kb/both/none and c0 = 1 or a Fraction. A case counts as non-trivial when it is a distinct JSON value.')
-    assumptions = ('equilibrium constants are exact rationals (fractions.Fraction / sympy.Rational) or sympy symbols; Python ints as K give floats under negative powers and are outside the model',
+    assumptions = ('equilibrium constants are exact rationals in the model; Python int / float constants are run too, their double results (int ** negative, float products) are compared with 1e-9 relative tolerance',
                    'sympy.Rational(0) ** negative is zoo (no exception) and is not generated; Fraction(0) ** negative raises ZeroDivisionError and is modelled',
                    'sympy.primefactors is modelled by its result (primes dividing |n|), tied by the primefactors correspondence op',
                    'cancel iterates over a Python set; its order is passed to the model (ties in |r| make the sign order dependent)',
@@ -354,8 +511,21 @@ class C11(Property):
         for i in range(k):
             r = rng.random()
             pool = rng.sample(NAMES, rng.randint(3, 6))
-            kmode = rng.choice(['frac', 'frac', 'frac', 'srat', 'sym', 'sym', 'none'])
-            if r < 0.5:
+            kmode = rng.choice(KMODES)
+            small = kmode in SMALL
+            if r < 0.22:
+                # a HISTORY: several statements over the same operand objects, every result usable again later
+                m = rng.randint(2, 4)
+                weird = rng.random() < 0.1
+                eqs = []
+                while len(eqs) < m:
+                    e = gen_eq(rng, pool, kmode, inact=weird and rng.random() < 0.3, plain=not weird, p_zero=0.1 if weird else 0.0)
+                    if _has_effect(e):
+                        eqs.append(e)
+                nst = rng.randint(2, 5) if small else rng.randint(2, 7 if tier == 'quick' else 10)
+                c = {'op': 'history', 'kmode': kmode, 'pool': eqs, 'steps': gen_history(rng, m, nst, small)}
+                cases.append(plain_multipliers(c) if kmode == 'int' and has_zero_K(c) else c)
+            elif r < 0.5:
                 mixed_none = rng.random() < 0.04
                 weird = rng.random() < 0.12      # inactive parts / zero coefficients / OrderedDict order
 
@@ -364,11 +534,12 @@ class C11(Property):
                     if weird:
                         return gen_eq(rng, pool, km, inact=rng.random() < 0.5, plain=False, p_zero=0.1)
                     return gen_eq(rng, pool, km)
-                t = gen_tree(rng, rng.randint(1, depth), leaf)
-                cases.append({'op': 'expr', 'kmode': kmode, 'tree': t})
+                t = gen_tree(rng, rng.randint(1, min(depth, 3) if small else depth), leaf, small)
+                c = {'op': 'expr', 'kmode': kmode, 'tree': t}
+                cases.append(plain_multipliers(c) if kmode == 'int' and has_zero_K(c) else c)
             elif r < 0.58:
                 e = gen_eq(rng, pool, kmode, inact=rng.random() < 0.5, plain=False, p_zero=0.1)
-                cases.append({'op': 'rmul', 'kmode': kmode, 'eq': e, 'n': rng.randint(-5, 5)})
+                cases.append({'op': 'rmul', 'kmode': kmode, 'eq': e, 'n': rng.randint(-3, 3) if small else rng.randint(-5, 5)})
             elif r < 0.68:
                 a = gen_eq(rng, pool, kmode, inact=rng.random() < 0.3, plain=rng.random() < 0.5, p_zero=0.05)
                 if rng.random() < 0.1:       # complete cancellation
@@ -453,6 +624,12 @@ class C11(Property):
                 return show_equil(build_eq(c['a'], km) - build_eq(c['b'], km))
             if op == 'expr':
                 return show_equil(eval_tree(c['tree'], km))
+            if op == 'history':
+                outcomes, changed = run_history(c['pool'], c['steps'], km)
+                lines = [exc_name(o) if isinstance(o, Exception) else show_equil(o) for o in outcomes]
+                if changed:
+                    lines.append('!MUTATED: ' + changed[0])
+                return ';;'.join(lines)
             if op == 'eliminate':
                 res = Equilibrium.eliminate([build_eq(e, km) for e in c['eqs']], c['wrt'])
                 assert all(int(x) == x for x in res)
@@ -481,6 +658,11 @@ class C11(Property):
     def same(self, c, io, mo):
         if io == mo:
             return True
+        if c['op'] in ('expr', 'rmul', 'neg', 'add', 'sub', 'mk'):
+            return same_equil(io, mo, 1e-9)
+        if c['op'] == 'history':
+            a, b = io.split(';;'), mo.split(';;')
+            return len(a) == len(b) and all(same_equil(x, y, 1e-9) for x, y in zip(a, b))
         if c['op'] == 'as_reactions' and 'float:' in io and mo not in EXC:
             # 1 ** negative int is a float in Python: the rate constant went through float arithmetic
             a, b = io.split(';'), mo.split(';')
@@ -512,31 +694,25 @@ class C11(Property):
                 t = {'t': 'neg', 'x': {'t': 'leaf', 'eq': c['eq']}}
             else:
                 t = {'t': op, 'a': {'t': 'leaf', 'eq': c['a']}, 'b': {'t': 'leaf', 'eq': c['b']}}
-            leaves = tree_leaves(t)
-            if any(v < 0 for e in leaves for side in ('reac', 'prod', 'ireac', 'iprod') for _, v in e[side]):
-                return None
-            has_sum = self._has_sum(t)
-            if has_sum and any(e['ireac'] or e['iprod'] for e in leaves):
-                return None            # inactive parts are not carried by addition: outside the property's quantifier
             try:
-                want = own_eval(t, km)
-            except _Pred as p:
-                want = p
-            try:
-                r = eval_tree(t, km)
+                outcome = eval_tree(t, km)
             except (ValueError, ZeroDivisionError, TypeError) as ex:
-                if isinstance(want, _Pred):
-                    return None
-                # another node may be entitled to raise although the first one found here was fine: search all nodes
-                if self._any_pred(t, km, exc_name(ex)):
-                    return None
-                return 'raised %s: %s although every intermediate result is a proper equilibrium' % (exc_name(ex), str(ex)[:80])
-            if isinstance(want, _Pred):
-                return None            # the code returned something where it was entitled to raise: nothing to compare
-            vec, K, netted, positive = want
-            if km == 'srat' and isinstance(K, Fraction):
-                pass
-            return check_result(r, vec, K, netted, positive, km, 'expression')
+                outcome = ex
+            return self._judge(outcome, t, km, 'expression')
+        if op == 'history':
+            pool = c['pool']
+            try:
+                outcomes, changed = run_history(pool, c['steps'], km)
+            except (ValueError, ZeroDivisionError, TypeError):
+                return None                      # an operand itself is not a proper equilibrium
+            if changed:
+                return 'arithmetic changed an operand object: ' + changed[0]
+            trees = history_trees(pool, c['steps'])[len(pool):]
+            for k, (o, t) in enumerate(zip(outcomes, trees)):
+                f = self._judge(o, t, km, 'statement %d of the history, %s' % (k, show_tree(t)))
+                if f is not None:
+                    return f
+            return None
         if op == 'eliminate':
             eqs = c['eqs']
             if len(eqs) != 2 or any(e['ireac'] or e['iprod'] for e in eqs):
@@ -608,6 +784,29 @@ class C11(Property):
             return None
         return None
 
+    def _judge(self, outcome, t, km, what):
+        """the property for one expression tree `t` and what the real code produced for it (an Equilibrium or an exception)"""
+        leaves = tree_leaves(t)
+        if any(v < 0 for e in leaves for side in ('reac', 'prod', 'ireac', 'iprod') for _, v in e[side]):
+            return None
+        if self._has_sum(t) and any(e['ireac'] or e['iprod'] for e in leaves):
+            return None            # inactive parts are not carried by addition: outside the property's quantifier
+        try:
+            want = own_eval(t, km)
+        except _Pred as p:
+            want = p
+        if isinstance(outcome, Exception):
+            if isinstance(want, _Pred):
+                return None
+            # another node may be entitled to raise although the first one found here was fine: search all nodes
+            if self._any_pred(t, km, exc_name(outcome)):
+                return None
+            return '%s: raised %s: %s although every intermediate result is a proper equilibrium' % (what, exc_name(outcome), str(outcome)[:80])
+        if isinstance(want, _Pred):
+            return None            # the code returned something where it was entitled to raise: nothing to compare
+        vec, K, netted, positive = want
+        return check_result(outcome, vec, K, netted, positive, km, what)
+
     def _has_sum(self, t):
         if t['t'] == 'leaf':
             return False
@@ -632,6 +831,8 @@ class C11(Property):
         op = c['op']
         if op == 'expr':
             return 'expr:depth%d:%s' % (tree_depth(c['tree']), c['kmode'])
+        if op == 'history':
+            return 'history:%dsteps:%s' % (len(c['steps']), c['kmode'])
         if op == 'eliminate':
             return 'eliminate:%d' % len(c['eqs'])
         if op in ('rmul',):
